@@ -82,38 +82,64 @@ func Execute(c *Case, opt ExecOptions) (rr RunResult) {
 	// go statements that start them). Nothing but the constructor runs on a
 	// shared value before the concurrent phase, unless the spec pre-warms. ---
 	sv := &sharedView{vs: make([][]any, len(ecos)), rs: make([][]any, len(ecos))}
-	for e, ep := range spec.Ecos {
-		sv.vs[e] = make([]any, len(ep.Versions))
-		sv.rs[e] = make([]any, len(ep.Ranges))
-		for i, s := range ep.Versions {
-			v, err := guardNew(func() (any, error) { return ecos[e].NewVersion(s) })
-			if err != nil || v == nil {
-				if i < len(exp.Pool[e].VStr) && exp.Pool[e].VStr[i] != noPool {
-					rr.Mismatches = append(rr.Mismatches, Mismatch{Class: "history-dependence", Task: -1, OpIdx: i,
-						What: "NewVersion(" + ep.Name + "," + quote(s) + ") for the shared pool", Want: "ok", Got: "err"})
-				}
-				continue
-			}
-			sv.vs[e][i] = v
+	// sequential runs a phase that is not part of the concurrent workload. In
+	// the simulator it still executes as a (single-task) simulated run, so that
+	// goroutines the library may start are simulated tasks there as well and are
+	// reaped when the phase ends.
+	sequential := func(phase string, f func()) bool {
+		if opt.Parallel {
+			f()
+			return true
 		}
-		for i, s := range ep.Ranges {
-			r, err := guardNew(func() (any, error) { return ecos[e].NewRange(s) })
-			if err != nil || r == nil {
-				if i < len(exp.Pool[e].RStr) && exp.Pool[e].RStr[i] != noPool {
-					rr.Mismatches = append(rr.Mismatches, Mismatch{Class: "history-dependence", Task: -1, OpIdx: i,
-						What: "NewVersionRange(" + ep.Name + "," + quote(s) + ") for the shared pool", Want: "ok", Got: "err"})
-				}
-				continue
-			}
-			sv.rs[e][i] = r
+		st, _ := simrt.RunTasks(simrt.Sched{Policy: simrt.PolRTC, Seed: spec.Sched.Seed}, simrt.Faults{Seed: spec.Faults.Seed, ClockBase: spec.Faults.ClockBase}, []func(){f})
+		if esc := simrt.Escaped(); esc != nil {
+			rr.HarnessErr = fmt.Sprintf("panic escaped the %s phase: %v", phase, esc)
+			return false
 		}
+		if st.Aborted != "" {
+			rr.Stats.Aborted = st.Aborted
+			rr.Stats.AbortDetail = phase + " phase (single task): " + st.AbortDetail
+			return false
+		}
+		return true
 	}
-	for i := range spec.Prewarm {
-		got := evalOp(&spec.Prewarm[i], ecos, sv)
-		if i < len(exp.Pre) && got != exp.Pre[i] {
-			rr.Mismatches = append(rr.Mismatches, Mismatch{Class: "history-dependence", Task: 0, OpIdx: i, Op: &spec.Prewarm[i],
-				What: "pre-warm operation on shared values", Want: exp.Pre[i], Got: got})
+	if !sequential("pool construction", func() {
+		for e, ep := range spec.Ecos {
+			sv.vs[e] = make([]any, len(ep.Versions))
+			sv.rs[e] = make([]any, len(ep.Ranges))
+			for i, s := range ep.Versions {
+				v, err := guardNew(func() (any, error) { return ecos[e].NewVersion(s) })
+				if err != nil || v == nil {
+					if i < len(exp.Pool[e].VStr) && exp.Pool[e].VStr[i] != noPool {
+						rr.Mismatches = append(rr.Mismatches, Mismatch{Class: "history-dependence", Task: -1, OpIdx: i,
+							What: "NewVersion(" + ep.Name + "," + quote(s) + ") for the shared pool", Want: "ok", Got: "err"})
+					}
+					continue
+				}
+				sv.vs[e][i] = v
+			}
+			for i, s := range ep.Ranges {
+				r, err := guardNew(func() (any, error) { return ecos[e].NewRange(s) })
+				if err != nil || r == nil {
+					if i < len(exp.Pool[e].RStr) && exp.Pool[e].RStr[i] != noPool {
+						rr.Mismatches = append(rr.Mismatches, Mismatch{Class: "history-dependence", Task: -1, OpIdx: i,
+							What: "NewVersionRange(" + ep.Name + "," + quote(s) + ") for the shared pool", Want: "ok", Got: "err"})
+					}
+					continue
+				}
+				sv.rs[e][i] = r
+			}
 		}
+		for i := range spec.Prewarm {
+			got := evalOp(&spec.Prewarm[i], ecos, sv)
+			if i < len(exp.Pre) && got != exp.Pre[i] {
+				rr.Mismatches = append(rr.Mismatches, Mismatch{Class: "history-dependence", Task: 0, OpIdx: i, Op: &spec.Prewarm[i],
+					What: "pre-warm operation on shared values", Want: exp.Pre[i], Got: got})
+			}
+		}
+	}) {
+		rr.WallNs = time.Since(t0).Nanoseconds()
+		return rr
 	}
 
 	// --- concurrent phase ---
@@ -177,7 +203,9 @@ func Execute(c *Case, opt ExecOptions) (rr RunResult) {
 		stats, sw = simrt.RunTasks(spec.Sched, spec.Faults, bodies)
 	}
 	debug.SetGCPercent(old)
-	rr.Stats = stats
+	if rr.Stats.Aborted == "" {
+		rr.Stats = stats
+	}
 	if esc := simrt.Escaped(); esc != nil {
 		rr.HarnessErr = fmt.Sprintf("panic escaped a task body: %v", esc)
 	}
@@ -224,22 +252,28 @@ func Execute(c *Case, opt ExecOptions) (rr RunResult) {
 	}
 
 	if stats.Aborted == "" {
-		// T2: the shared values must still behave exactly like fresh ones (O2).
-		obs := observePool(spec, ecos, sv)
-		comparePool(&rr, spec, "shared-value-changed", "shared pool after the run", exp.Pool, obs)
-		// T1: fresh calls after this history must still give the reference results (O1).
-		fv := &freshView{spec: spec, ecos: ecos}
-		for t, prog := range spec.Tasks {
-			for i := range prog {
-				got := evalOp(&prog[i], ecos, fv)
-				if t < len(exp.Ops) && i < len(exp.Ops[t]) && got != exp.Ops[t][i] {
-					rr.Mismatches = append(rr.Mismatches, Mismatch{Class: "history-dependence", Task: t + 1, OpIdx: i, Op: &prog[i],
-						What: "fresh sequential re-evaluation after the run", Want: exp.Ops[t][i], Got: got})
+		if !sequential("post-run observation", func() {
+			// T2: the shared values must still behave exactly like fresh ones (O2).
+			obs := observePool(spec, ecos, sv)
+			comparePool(&rr, spec, "shared-value-changed", "shared pool after the run", exp.Pool, obs)
+			// T1: fresh calls after this history must still give the reference results (O1).
+			fv := &freshView{spec: spec, ecos: ecos}
+			for t, prog := range spec.Tasks {
+				for i := range prog {
+					got := evalOp(&prog[i], ecos, fv)
+					if t < len(exp.Ops) && i < len(exp.Ops[t]) && got != exp.Ops[t][i] {
+						rr.Mismatches = append(rr.Mismatches, Mismatch{Class: "history-dependence", Task: t + 1, OpIdx: i, Op: &prog[i],
+							What: "fresh sequential re-evaluation after the run", Want: exp.Ops[t][i], Got: got})
+					}
 				}
 			}
+			fobs := observePool(spec, ecos, fv)
+			comparePool(&rr, spec, "history-dependence", "freshly parsed pool after the run", exp.Pool, fobs)
+
+		}) && rr.HarnessErr != "" {
+			rr.WallNs = time.Since(t0).Nanoseconds()
+			return rr
 		}
-		fobs := observePool(spec, ecos, fv)
-		comparePool(&rr, spec, "history-dependence", "freshly parsed pool after the run", exp.Pool, fobs)
 	}
 
 	rr.RaceCount = simrt.RaceErrors() - racesBefore
